@@ -298,8 +298,12 @@ func (ro *Roles) listedFlags() ([]listedFlag, *ssa.Function) {
 			// a predicate returned as one comparison: the call is inside the stored expression
 			if i := strings.Index(lf.sched, prefix); i >= 0 {
 				rest := lf.sched[i:]
-				depth := 0
+				// (the prefix ends with the call's opening parenthesis; a method name itself contains parentheses)
+				depth := 1
 				for j, ch := range rest {
+					if j < len(prefix) {
+						continue
+					}
 					if ch == '(' {
 						depth++
 					}
@@ -362,6 +366,8 @@ func (ro *Roles) schedulableAgreement(r *Report, rule string) {
 		for a := range lf.set {
 			val := lf.sched
 			if val != "true" && val != "false" && lf.ap != "" {
+				// a pure helper of the decision (`decision.rejection() == nil`, `accepted(decision)`): evaluated for this action
+				val = ro.foldActionHelpers(val, lf.ap, ro.Actions[a])
 				if v, err := evalAPExpr(val, map[string]string{lf.ap: "action"}, map[string]int64{"action": ro.Actions[a]}); err == "" {
 					val = map[int64]string{0: "false", 1: "true"}[v]
 				}
@@ -424,6 +430,14 @@ func (ro *Roles) runningAgreement(r *Report, rule string) {
 	// ∃: ranges over jobsByPipeline[arg0]; returns true on the predicate's true edge, false after the loop
 	// (the loop may sit in a function over the list that the predicate delegates to)
 	fn, list := ro.existsHost()
+	if ro.countPositive(ro.PipeRunning) {
+		// stated through the admission count: `count(pipeline) > 0` — ∃ follows from the shape of the counting function
+		ro.countShape(r, rule+".count-shape")
+		r.OK(rule+".exists", FuncName(fn)+": ∃ running job of the pipeline", w.Pos(fn.Pos()), "the flag is count(pipeline) > 0 with the admission's counting function (its shape is checked as "+rule+".count-shape)")
+		ro.runningListed(r, rule)
+		r.OK(rule+".same-predicate", FuncName(ro.Count)+" and "+FuncName(ro.PipeRunning)+" share the running predicate", w.Pos(fn.Pos()), "the flag is computed from the admission count itself")
+		return
+	}
 	okE := false
 	for _, f := range w.ifFacts(fn) {
 		if f.Atom.Op == "true" && list != "" && strings.HasPrefix(f.Atom.L, FuncName(ro.RunPred)+"("+list+"[") {
@@ -440,15 +454,7 @@ func (ro *Roles) runningAgreement(r *Report, rule string) {
 	})
 	r.Check(okE && nFalse == 1, rule+".exists", FuncName(fn)+": ∃ running job of the pipeline", w.Pos(fn.Pos()), "true exactly when some job of jobsByPipeline[pipeline] satisfies the running predicate", "the pipeline-running flag is not '∃ job of the pipeline with the running predicate'")
 	// the list function reports it for the same pipeline
-	if flags, lp := ro.listedFlags(); lp != nil {
-		okL := len(flags) > 0
-		for _, lf := range flags {
-			if lf.key == "" || lf.running != FuncName(ro.PipeRunning)+"(recv,"+lf.key+")" {
-				okL = false
-			}
-		}
-		r.Check(okL, rule+".listed", "ListPipelines: Running/Schedulable of the listed pipeline", w.Pos(lp.Pos()), "both flags are computed for the pipeline they are reported for", "ListPipelines reports flags computed for another pipeline or by other predicates")
-	}
+	ro.runningListed(r, rule)
 	// sibling agreement: the admission count uses the same predicate
 	cfn, _ := ro.countHost()
 	if cfn == nil {
@@ -712,4 +718,47 @@ func (w *World) fileContent(name string) []byte {
 	}
 	w.files[name] = b
 	return b
+}
+
+// foldActionHelpers replaces every `F(<ap>)` in expr — F a module function whose only argument (or receiver) is the admission
+// decision — by the value F returns for the given action: "nil"/"1" for an error result (nil / not nil), "true"/"false" or the
+// constant for others. F is evaluated on its enumerated paths (it may only compare its argument with constants).
+func (ro *Roles) foldActionHelpers(expr, ap string, action int64) string {
+	w := ro.w
+	for _, f := range w.ModFuncs {
+		if f.Parent() != nil || len(f.Params) != 1 || f.Signature.Results().Len() != 1 {
+			continue
+		}
+		call := FuncName(f) + "(" + ap + ")"
+		if !strings.Contains(expr, call) {
+			continue
+		}
+		res := w.EnumPaths(f, EnumOpts{})
+		if res.Truncated {
+			continue
+		}
+		p, why := selectPath(res.Paths, map[string]string{w.AP(f.Params[0]): "action"}, map[string]int64{"action": action})
+		if p == nil || why != "" || len(p.Ret) != 1 {
+			continue
+		}
+		v := p.Ret[0]
+		if types.Identical(f.Signature.Results().At(0).Type(), types.Universe.Lookup("error").Type()) && v != "nil" {
+			v = "1"
+		}
+		expr = strings.ReplaceAll(expr, call, v)
+	}
+	return expr
+}
+
+func (ro *Roles) runningListed(r *Report, rule string) {
+	w := ro.w
+	if flags, lp := ro.listedFlags(); lp != nil {
+		okL := len(flags) > 0
+		for _, lf := range flags {
+			if lf.key == "" || lf.running != FuncName(ro.PipeRunning)+"(recv,"+lf.key+")" {
+				okL = false
+			}
+		}
+		r.Check(okL, rule+".listed", "ListPipelines: Running/Schedulable of the listed pipeline", w.Pos(lp.Pos()), "both flags are computed for the pipeline they are reported for", "ListPipelines reports flags computed for another pipeline or by other predicates")
+	}
 }
